@@ -25,6 +25,16 @@ type cell struct {
 	Part    []uint16          `json:"part"` // participating nodes (sorted)
 	Op      string            `json:"op"`   // "keygen" or "keygen+sign"
 	Signers []uint16          `json:"signers,omitempty"`
+	// MapKG, if set, is what Membership() returns until the key generation is over; Map is what it
+	// returns afterwards (the membership of a long-lived Scheme changes between operations)
+	MapKG map[uint16]uint16 `json:"map_keygen,omitempty"`
+}
+
+func (k cell) kgCell() cell {
+	if k.MapKG != nil {
+		k.Map = k.MapKG
+	}
+	return k
 }
 
 func (k cell) id() string { return fmt.Sprintf("%s/%s/%s/p%v", k.Mode, k.Name, k.Op, k.Part) }
@@ -64,11 +74,17 @@ func run(c *harness.C, k cell, r world.Chooser) *out {
 		for n := range k.Map {
 			nodes = append(nodes, n)
 		}
+		for n := range k.MapKG {
+			if _, ok := k.Map[n]; !ok {
+				nodes = append(nodes, n)
+			}
+		}
 		sort.Slice(nodes, func(i, j int) bool { return nodes[i] < nodes[j] })
 		w := world.New(nodes)
 		lg := s.NewLog()
-		po := func(node uint16) uint16 { return k.Map[node] }
-		st := &scen.Stack{Mode: k.Mode, Threshold: len(k.Signers) - 1, Membership: k.Map,
+		cur := k.kgCell().Map
+		po := func(node uint16) uint16 { return cur[node] }
+		st := &scen.Stack{Mode: k.Mode, Threshold: len(k.Signers) - 1, Membership: cur,
 			KGF: func(id uint16) tss.KeyGenerator { return s.New(id, po, lg) },
 			SF:  func(id uint16) tss.Signer { return s.New(id, po, lg) }}
 		if k.Mode == "silent" {
@@ -96,6 +112,8 @@ func run(c *harness.C, k cell, r world.Chooser) *out {
 			}
 		}
 		if ok && k.Op == "keygen+sign" {
+			cur = k.Map
+			st.Membership = k.Map
 			for _, n := range k.Signers {
 				data := []byte(nil)
 				if o.kg[n] != nil {
@@ -104,7 +122,7 @@ func run(c *harness.C, k cell, r world.Chooser) *out {
 					// a replica that did not take part in the key generation holds the share of
 					// its party (copied from the replica that did)
 					for _, m := range k.Part {
-						if k.Map[m] == k.Map[n] {
+						if k.kgCell().Map[m] == k.Map[n] {
 							data = o.kg[m].Data
 						}
 					}
@@ -174,7 +192,7 @@ func oracle(c *harness.C, k cell, o *out, rp replay) bool {
 		key := fmt.Sprintf("%d/%d", r.Node, r.Session)
 		nodeSess[key] = append(nodeSess[key], r)
 	}
-	checkPhase := func(phase string, nodes []uint16, res map[uint16]*scen.Result, sessOf func(uint16) int) {
+	checkPhase := func(phase string, k cell, nodes []uint16, res map[uint16]*scen.Result, sessOf func(uint16) int) {
 		dup := k.dupParty(nodes)
 		want := k.parties(nodes)
 		for _, n := range nodes {
@@ -250,26 +268,38 @@ func oracle(c *harness.C, k cell, o *out, rp replay) bool {
 			}
 		}
 	}
-	checkPhase("keygen", k.Part, o.kg, func(uint16) int { return 1 })
+	kg := k.kgCell()
+	checkPhase("keygen", kg, k.Part, o.kg, func(uint16) int { return 1 })
 	if !okAll {
 		return false
 	}
-	if !k.dupParty(k.Part) {
-		key := s.DKGKey(k.parties(k.Part))
+	if !kg.dupParty(k.Part) {
+		key := s.DKGKey(kg.parties(k.Part))
 		for _, n := range k.Part {
 			var st s.Stored
 			json.Unmarshal(o.kg[n].Data, &st)
 			if !bytes.Equal(st.Key, key) {
-				bad("keygen-result", "c06-keygen-wrong-key", fmt.Sprintf("node %d obtained a key that is not the one of parties %v (a message was attributed to the wrong party)", n, k.parties(k.Part)))
+				bad("keygen-result", "c06-keygen-wrong-key", fmt.Sprintf("node %d obtained a key that is not the one of parties %v (a message was attributed to the wrong party)", n, kg.parties(k.Part)))
 			}
 		}
 	}
-	if k.Op == "keygen+sign" && !k.dupParty(k.Part) {
-		// signer instances: ThresholdPK is not called, so the signing session is instance 2 of each node
-		checkPhase("sign", k.Signers, o.sg, func(uint16) int { return 2 })
+	if k.Op == "keygen+sign" && !kg.dupParty(k.Part) {
+		// signer instances: ThresholdPK is not called, so the signing session is instance 2 of each
+		// node that took part in the key generation (instance 1 of a node that did not)
+		checkPhase("sign", k, k.Signers, o.sg, func(n uint16) int {
+			for _, m := range k.Part {
+				if m == n {
+					return 2
+				}
+			}
+			if k.MapKG == nil {
+				return 2
+			}
+			return 1
+		})
 		if okAll && !k.dupParty(k.Signers) {
 			for _, n := range k.Signers {
-				if !s.VerifySig(s.DKGKey(k.parties(k.Part)), []byte("digest-c06"), k.parties(k.Signers), o.sg[n].Data) {
+				if !s.VerifySig(s.DKGKey(kg.parties(k.Part)), []byte("digest-c06"), k.parties(k.Signers), o.sg[n].Data) {
 					bad("sign-result", "c06-sign-wrong-signature", fmt.Sprintf("node %d returned a signature that does not verify for signer parties %v", n, k.parties(k.Signers)))
 				}
 			}
@@ -362,6 +392,15 @@ func gen(c *harness.C) []harness.Case {
 	// replicas whose party id collides with another node id
 	rep2 := map[uint16]uint16{1: 3, 2: 3, 3: 1, 4: 2}
 	add("replicas4x", rep2, [][]uint16{{1, 3, 4}, {2, 3, 4}}, last2)
+	// the membership of long-lived Schemes changes between the key generation and the signing
+	// session (README: a replica is added / a node is removed)
+	for _, mode := range []string{"loud", "silent"} {
+		cells = append(cells,
+			cell{Name: "grow-replica", Mode: mode, MapKG: map[uint16]uint16{1: 1, 2: 2, 3: 3}, Map: map[uint16]uint16{1: 1, 2: 2, 3: 3, 11: 1}, Part: []uint16{1, 2, 3}, Op: "keygen+sign", Signers: []uint16{2, 3, 11}},
+			cell{Name: "grow-replica-high", Mode: mode, MapKG: map[uint16]uint16{1: 1, 2: 2, 3: 3}, Map: map[uint16]uint16{1: 1, 2: 2, 3: 3, 11: 3}, Part: []uint16{1, 2, 3}, Op: "keygen+sign", Signers: []uint16{1, 11}},
+			cell{Name: "shrink", Mode: mode, MapKG: map[uint16]uint16{1: 1, 2: 2, 3: 3, 4: 4}, Map: map[uint16]uint16{1: 1, 2: 2, 3: 3}, Part: []uint16{1, 2, 3}, Op: "keygen+sign", Signers: []uint16{1, 3}},
+			cell{Name: "replace-node", Mode: mode, MapKG: map[uint16]uint16{1: 1, 2: 2, 3: 3}, Map: map[uint16]uint16{1: 1, 2: 2, 30: 3}, Part: []uint16{1, 2, 3}, Op: "keygen+sign", Signers: []uint16{1, 2, 30}})
+	}
 	if c.Thorough() {
 		add("rev4", map[uint16]uint16{1: 40, 2: 30, 3: 20, 4: 10}, [][]uint16{{1, 2, 3, 4}, {1, 2, 4}, {2, 3, 4}}, first2)
 		add("boundaryrev3", map[uint16]uint16{0: 65535, 1: 256, 65535: 0}, [][]uint16{{0, 1, 65535}}, all)
